@@ -47,6 +47,7 @@ RULE += (' Queries also run on receivers written to disk and reopened (a file th
 RULE += (" Every eighth program and every fifth query starts from the object one of the library's READERS returns for a valid image written by the independent codecs (all CAMx memory-mapped and record readers, bpch1, bpch2, arlpackedbit, ffi1001); the gridded, boundary, land-use and bpch1 memory maps are opened for update (mode='r+') in half of those programs, so that anything sharing the map could change the receiver.")
 RULE += (' What a query returns is written into and the query repeated: the second answer must equal the first (no hidden state shared with the answer). After a program on a receiver opened from disk the source is closed: the files derived from it must be unchanged.')
 RULE += (' One receiver from disk in three (plain files) is written with netCDF4 directly, as other tools write archive files: float data variables packed (int16 with scale_factor/add_offset), masks as _FillValue; the oracle snapshots what the opened file delivers.')
+RULE += (' Attribute values of the generated files include arrays in the non-native byte order that own their data.')
 ASSUMPTIONS = [
     'getVarlist() with its default update=True is a documented mutator and '
     'is not treated as a query',
